@@ -299,7 +299,7 @@ type h1Env struct {
 
 var h1Routes = []string{"direct", "upstream", "mitm", "handler"}
 
-const h1HeaderLimit = 300 * time.Millisecond
+const h1HeaderLimit = 800 * time.Millisecond
 
 // h1LogHTTP: --log-http mode of every h1 route ("" = default); set from the command line (--arg loghttp=...).
 var h1LogHTTP string
